@@ -195,6 +195,33 @@ fn raw_pull_concurrent_cancel(addr: std::net::SocketAddr, resource: &str) -> Val
     json!({"ev": "raw_cc", "open": "ok", "first": first, "second": second, "third": third, "cancel_acked": acked})
 }
 
+/// two connections pull the SAME stream at the same time (each `next` of the one queues behind a `next` of the other
+/// that is parked on a slow producer): over all replies of both there is at most one end marker, exactly one when the
+/// producer completes and none when it fails; every reply after it is an error
+fn raw_pull_concurrent_next(addr: std::net::SocketAddr, resource: &str) -> Value {
+    let c = Client::connect(addr).unwrap();
+    let Ok(open) = c.call_with_formats(svs::ROUTE_OPEN, 1, Some(&beve::to_vec(&OpenRequest { resource: resource.into() }).unwrap()), 1) else { return json!({"ev": "raw_cn", "open": "err"}) };
+    let Ok(o) = open.beve_body::<OpenResponse>() else { return json!({"ev": "raw_cn", "open": "bad"}) };
+    let sid = o.stream_id;
+    let pull_all = move |c: Client| -> Vec<&'static str> {
+        let mut kinds = vec![];
+        for _ in 0..64 {
+            let r = c.call_with_formats_and_timeout(svs::ROUTE_NEXT, 1, Some(&beve::to_vec(&NextRequest { stream_id: sid }).unwrap()), 1, Duration::from_secs(8));
+            let k = match r { Ok(m) => if m.query.first().copied() == Some(1) { "last" } else { "chunk" }, Err(_) => "err" };
+            kinds.push(k);
+            if k == "err" { break; }
+        }
+        kinds
+    };
+    let c2 = Client::connect(addr).unwrap();
+    let (a, b) = (std::thread::spawn(move || pull_all(c)), std::thread::spawn(move || pull_all(c2)));
+    let (ka, kb) = (a.join().unwrap_or_default(), b.join().unwrap_or_default());
+    let lasts = ka.iter().chain(kb.iter()).filter(|k| **k == "last").count();
+    // nothing but errors after a connection saw the end marker
+    let after_last_ok = [&ka, &kb].iter().all(|k| k.iter().position(|x| *x == "last").map(|i| k[i + 1..].iter().all(|x| *x == "err")).unwrap_or(true));
+    json!({"ev": "raw_cn", "open": "ok", "lasts": lasts, "after_last_only_errors": after_last_ok, "a": ka, "b": kb})
+}
+
 fn decompress(comp: u8, b: &[u8]) -> Option<Vec<u8>> {
     if comp == 0 { Some(b.to_vec()) } else { zstd::stream::decode_all(b).ok() }
 }
@@ -264,6 +291,14 @@ pub fn c09(a: &Args) -> i32 {
                     let mut e = raw_pull_concurrent_cancel(srv.addr, &format!("n={},w={},fail=-1,ps=70000", 4 * chunk, chunk));
                     e["producer"] = json!("writer"); e["comp"] = json!(compu); e["chunk"] = json!(chunk); e["depth"] = json!(depth);
                     out.push(&e); n_pulls += 1;
+                }
+                // --- two connections pull the same stream concurrently (slow producer: their `next`s queue behind each other)
+                if chunk <= 64 {
+                    for fail in [-1i64, (2 * chunk) as i64] {
+                        let mut e = raw_pull_concurrent_next(srv.addr, &format!("n={},w={},fail={fail},ps=30000", 3 * chunk, chunk));
+                        e["producer"] = json!("writer"); e["comp"] = json!(compu); e["chunk"] = json!(chunk); e["depth"] = json!(depth); e["fail"] = json!(fail);
+                        out.push(&e); n_pulls += 1;
+                    }
                 }
                 // --- library pullers over the three clients on the writer producer
                 let ac = rt.block_on(AsyncClient::connect(srv.addr)).unwrap();
@@ -578,7 +613,9 @@ pub fn c10(a: &Args) -> i32 {
                     if puller != "pull_to_file" && puller != "pull_to_file_async" { scen.push(("verifier_rejects", format!("n={n},w=5,fail=-1,ps=0"), true)); }
                     for (scenario, resource, reject) in scen {
                         let want_len = if puller.starts_with("trailer") { n - 8 } else { n };
-                        let mut sysrun = |inject: Option<(String, usize)>, out: &mut util::NdJson| -> Vec<(String, usize)> {
+                        // inject: (syscall, n-th call of that kind on the two paths, what strace does to it): a SIGKILL on entry, or
+                        // the call is not executed and returns an error (a local I/O failure: disk full, I/O error)
+                        let mut sysrun = |inject: Option<(String, usize, &'static str)>, out: &mut util::NdJson| -> Vec<(String, usize)> {
                             case_id += 1;
                             let dest = dir.join(format!("kdest-{case_id}.bin"));
                             let tmp = tmp_of(&dest);
@@ -590,20 +627,21 @@ pub fn c10(a: &Args) -> i32 {
                             if stale { std::fs::write(&tmp, vec![0x5A; 4 * n]).unwrap(); }
                             let mut cmd = std::process::Command::new("strace");
                             cmd.args(["-f", "-y", "-o", log.to_str().unwrap(), "-P", tmp.to_str().unwrap(), "-P", dest.to_str().unwrap(), "-e", SYS_TRACE]);
-                            if let Some((call, when)) = &inject { cmd.args(["-e", &format!("inject={call}:signal=KILL:when={when}")]); }
+                            if let Some((call, when, act)) = &inject { cmd.args(["-e", &format!("inject={call}:{act}:when={when}")]); }
                             cmd.arg(&exe).args(["vs-pull-child", "--addr", &srv.addr.to_string(), "--resource", &resource, "--dest", dest.to_str().unwrap(), "--puller", puller]);
                             if reject { cmd.arg("--reject"); }
                             let st = cmd.stdout(std::process::Stdio::null()).stderr(std::process::Stdio::null()).status();
                             use std::os::unix::process::ExitStatusExt;
                             let Ok(st) = st else { out.push(&json!({"ev": "tool_error", "what": "strace could not be run"})); return vec![]; };
                             let killed = st.signal().is_some() || st.code() == Some(137);
-                            let fault = inject.as_ref().map(|(c, w)| format!("{c}#{w}")).unwrap_or("none".into());
+                            let io_error = inject.as_ref().map(|(_, _, act)| act.starts_with("error=")).unwrap_or(false);
+                            let fault = inject.as_ref().map(|(c, w, act)| if act.starts_with("error=") { format!("{c}#{w}!{}", &act[6..]) } else { format!("{c}#{w}") }).unwrap_or("none".into());
                             out.push(&json!({"ev": "begin", "scenario": scenario, "fault": fault, "puller": puller, "comp": compu, "pre": if pre { "old" } else { "absent" }, "resource": resource, "stale_tmp": stale}));
                             let calls = parse_strace(&std::fs::read_to_string(&log).unwrap_or_default(), tmp.to_str().unwrap(), dest.to_str().unwrap(), want_len, out);
                             let tmpc = match std::fs::read(&tmp) { Err(_) => "absent", Ok(b) if b.is_empty() => "empty", Ok(b) if b == complete[..want_len] => "complete", Ok(b) if complete.starts_with(&b) => "partial", Ok(_) => "other" };
                             out.push(&json!({"ev": "end", "scenario": scenario, "fault": fault, "puller": puller, "comp": compu, "pre": if pre { "old" } else { "absent" },
                                              "ok": st.success(), "killed": killed, "dest": classify_file(&dest, &old, &complete[..want_len]), "tmp": tmpc,
-                                             "must": if scenario == "complete" { "succeed" } else { "fail" }}));
+                                             "must": if scenario == "complete" && !io_error { "succeed" } else { "fail" }}));
                             let _ = std::fs::remove_file(&dest);
                             let _ = std::fs::remove_file(&tmp);
                             if !a.flag("keep-logs") { let _ = std::fs::remove_file(&log); }
@@ -618,7 +656,13 @@ pub fn c10(a: &Args) -> i32 {
                         for (i, pt) in points.into_iter().enumerate() {
                             if i >= cap { break; }
                             if !thorough && scenario != "complete" && !(pt.0 == "unlink" || pt.0 == "unlinkat" || i == 1) { continue; }
-                            sysrun(Some(pt), &mut sysout); cases += 1;
+                            sysrun(Some((pt.0.clone(), pt.1, "signal=KILL")), &mut sysout); cases += 1;
+                            // the same call failing instead (disk full on a write, an I/O error on the sync, a failing rename): the
+                            // pull must fail and leave the destination as it was
+                            if scenario == "complete" {
+                                let err = match pt.0.as_str() { "write" | "pwrite64" | "writev" => Some("error=ENOSPC"), "fsync" | "fdatasync" => Some("error=EIO"), "rename" | "renameat" | "renameat2" => Some("error=EXDEV"), _ => None };
+                                if let Some(err) = err { sysrun(Some((pt.0, pt.1, err)), &mut sysout); cases += 1; }
+                            }
                         }
                     }
                 }
@@ -669,6 +713,8 @@ fn parse_strace(log: &str, tmp: &str, dest: &str, want_len: usize, out: &mut uti
             "rename" | "renameat" | "renameat2" if q_tmp && q_dest && !failed && args.find(&format!("\"{tmp}\"")) < args.find(&format!("\"{dest}\"")) => "rename",
             "unlink" | "unlinkat" if q_tmp && !q_dest && !failed => "unlink_tmp",
             "unlink" | "unlinkat" if q_tmp && failed => "noop",
+            "write" | "pwrite64" | "writev" | "fsync" | "fdatasync" if on_tmp_fd && failed => "io_failed",
+            "rename" | "renameat" | "renameat2" if q_tmp && q_dest && failed => "io_failed",
             _ => "other",
         };
         let _ = on_dest_fd;
